@@ -23,6 +23,10 @@ theorem encState_append (c : Col) : ∀ buf, encState c buf = buf ++ encState c 
     intro buf
     simp only [encState]
     rw [ihb (encState a buf), iha buf, ihb (encState a []), List.append_assoc]
+  | versioned v c ih =>
+    intro buf
+    simp only [encState, List.nil_append]
+    rw [ih (buf ++ i64le v), ih (i64le v), List.append_assoc]
   | _ => intro buf; simp [encState]
 
 /-- **The bytes produced for a column do not depend on what the buffer already contained.** -/
@@ -65,6 +69,7 @@ theorem encCol_append (c : Col) : ∀ buf, encCol c buf = buf ++ encCol c [] := 
     simp only [encCol]
     rw [ihb (encCol a buf), iha buf, ihb (encCol a []), List.append_assoc]
   | unit n => intro buf; simp [encCol]
+  | versioned v c ih => intro buf; simp only [encCol]; exact ih buf
 
 /-! ### chunking -/
 
@@ -153,6 +158,7 @@ def WF (cfg : Cfg) : Col → Prop
       k.rows = lastOff offs ∧ v.rows = lastOff offs ∧ WF cfg k ∧ WF cfg v
   | .pair a b => b.rows = a.rows ∧ WF cfg a ∧ WF cfg b
   | .unit _ => True
+  | .versioned _ c => WF cfg c
 
 /-! ### leaf round trips -/
 
@@ -373,6 +379,11 @@ theorem empty_of_rows_zero (cfg : Cfg) : ∀ (c : Col), WF cfg c → c.rows = 0 
     simp only [Col.ty, Ty.empty]
     rw [← iha hwa h, ← ihb hwb (by rw [hb, h])]
   | unit n => intro _ h; simp [Col.rows] at h; simp [h, Col.ty, Ty.empty]
+  | versioned v c ih =>
+    intro hw h
+    simp only [Col.rows] at h
+    simp only [Col.ty, Ty.empty]
+    rw [← ih hw h]
 
 theorem ty_empty (t : Ty) : t.empty.ty = t := by
   induction t with
@@ -380,6 +391,7 @@ theorem ty_empty (t : Ty) : t.empty.ty = t := by
   | nullable t ih => simp [Ty.empty, Col.ty, ih]
   | map k v ihk ihv => simp [Ty.empty, Col.ty, ihk, ihv]
   | pair a b iha ihb => simp [Ty.empty, Col.ty, iha, ihb]
+  | versioned v t ih => simp [Ty.empty, Col.ty, ih]
   | _ => simp [Ty.empty, Col.ty]
 
 theorem rawImage_length (w : Nat) (v : Int) : (rawImage w v).length = w := leBytes_length _ _
@@ -660,6 +672,11 @@ theorem col_rt (cfg : Cfg) (hcap : cfg.cap = none) : ∀ (c : Col) (r : Bytes), 
   | unit n =>
     intro r _
     simp [Col.ty, Col.rows, decCol, encCol, Parser.pure]
+  | versioned v c ih =>
+    intro r h
+    simp only [Col.ty, Col.rows, decCol, encCol]
+    rw [bind_ok' (ih r h)]
+    rfl
 
 end Col
 end Model
@@ -759,6 +776,7 @@ theorem decCol_stable (cfg : Cfg) : ∀ (t : Ty) (rows : Nat), Stable (decCol cf
     intro rows
     exact Stable.bind (iha rows) fun x => Stable.bind (ihb rows) fun y => Stable.pure _
   | unit => intro rows; exact Stable.pure _
+  | versioned v t ih => intro rows; exact Stable.bind (ih rows) fun _ => Stable.pure _
 
 theorem decState_stable : ∀ (t : Ty), Stable (decState t) := by
   intro t
@@ -768,6 +786,7 @@ theorem decState_stable : ∀ (t : Ty), Stable (decState t) := by
   | lc t _ => exact Stable.bind (Stable.le 8) fun _ => Stable.guard _ _
   | map k v ihk ihv => exact Stable.bind ihk fun _ => ihv
   | pair a b iha ihb => exact Stable.bind iha fun _ => ihb
+  | versioned v t ih => exact Stable.bind (Stable.le 8) fun _ => Stable.bind (Stable.guard _ _) fun _ => ih
   | _ => exact Stable.pure _
 
 end Col
